@@ -376,8 +376,11 @@ def arb(params):
     vertices = [tuple(params[3 * i:3 * i + 3]) for i in range(8)]
     facets = [tup for tup in (parse_facet(param) for param in params[24:])
               if tup]
-    n_vertices = len(set(i for facet in facets for i in facet))
-    vertices = vertices[:n_vertices]
+    # the corners that the facets refer to (not necessarily the first ones:
+    # unused corners may be zero triplets anywhere among the eight)
+    used_vertices = [vertices[i]
+                     for i in sorted(set(i for facet in facets for i in facet))]
+    n_vertices = len(used_vertices)
 
     # Even though the documentation does not mention this, it seems that MCNP
     # does not allow concave polyhedra. We use this fact to orient the planes
@@ -385,7 +388,7 @@ def arb(params):
     # vertices (which is guaranteed to lie inside the polyhedron because it is
     # convex) and we orient the normal to each plane in such a way that the
     # centroid lies on the negative side.
-    centroid = rescale(1. / n_vertices, vsum(*vertices))
+    centroid = rescale(1. / n_vertices, vsum(*used_vertices))
 
     planes = []
     for facet in facets:
